@@ -5,10 +5,16 @@ import subprocess
 import sys
 import xml.etree.ElementTree as ET
 
+import os
+
 out = sys.argv[1] if len(sys.argv) > 1 else "/tmp/suite"
+repo = sys.argv[2] if len(sys.argv) > 2 else "/repo"
 xml = out + ".xml"
+env = dict(os.environ)
+if repo != "/repo":
+    env["PYTHONPATH"] = os.path.join(repo, "src")
 subprocess.run(["/venv/bin/python", "-m", "pytest", "-ra", "-q", "-p", "no:cacheprovider", "--timeout=900",
-                "--continue-on-collection-errors", f"--junitxml={xml}"], cwd="/repo",
+                "--continue-on-collection-errors", f"--junitxml={xml}"], cwd=repo, env=env,
                stdout=open(out + ".log", "w"), stderr=subprocess.STDOUT)
 base = json.load(open("/root/.vp/BASELINE.json"))
 passed = set()
